@@ -24,10 +24,24 @@ CONFIG = dict(
                "yields exactly those packets (framing_independent_of_segmentation, framing_delivers_all_packets; defect witness single_read_loses_split_body); "
                "WSConn.GetNextMessage returns a message holding exactly one packet and rejects anything longer (ws_one_packet_per_message). "
                "The re-test of the closed latch under the mutex is what makes Close idempotent (defect witness unlocked_latch_test_closes_twice). "
+               "CLOSE STATEMENT BY STATEMENT (model CloseFine: Lock / select on chanClose / SetStatus / close(chanClose) / close(chSend) / conn.Close / OnSessionClose / "
+               "Unlock each a step of its own, any number of callers arriving at any moment, pushers - status test, then the send with its recover - running beside "
+               "them): in every reachable state no channel is closed twice, conn.Close and OnSessionClose ran at most once, the remove never before the conn.Close, and "
+               "with the mutex free both ran exactly as often as the latch says (close_statement_level_once); a Close() that has RETURNED - whoever did the work - leaves "
+               "conn closed once and remove posted once (close_returned_means_closed); every caller step decreases a measure and at rest nobody is inside or waiting "
+               "(close_statement_level_terminates); once chSend is closed nothing is enqueued, a racing push is recovered (push_racing_close_never_enqueues); without the "
+               "re-test the second caller would close a closed channel (close_without_retest_crashes). "
+               "REMOVESESSION AS A WHOLE (Session.removeSession: map delete, HandlerComponent.OnSessionRemove = run the callback registered under the id THEN delete it, "
+               "then the sessions' onCloseCB): the registered close callback runs exactly once followed by the sessions' callback, a second remove runs nothing "
+               "(close_callbacks_run_once), other sessions' callbacks stay registered (close_callback_of_other_session_untouched), a panicking callback ends the removal "
+               "before the sessions' callback and leaves its stale entry in the handler (panicking_close_callback_ends_removal). "
                "OWNER MAP: with every entry stored under its connection's id and no id shared, ProcessMessage/RemoveSession/Kick/PushMsg lookups find the "
                "connection's own session or nothing, and a remove deletes exactly its own entry (owner_lookup_hits_own_session, owner_remove_deletes_own_entry, "
                "owner_map_agrees), a PushMsg aimed at a removed session's id reaches nobody while the other ids of the same push are served "
-               "(push_after_remove_reaches_nobody; what id reuse inside a lifetime would do: id_reuse_hijacks_entry). The pre-fix reader (D6) and the pre-fix owner (D15) are kept as definitions with witness theorems. The model is tied "
+               "(push_after_remove_reaches_nobody; what id reuse inside a lifetime would do: id_reuse_hijacks_entry); the session AddSession announces is "
+               "registered under the announced id from the moment the handler is told of it, so a lookup, Kick(id) or PushMsg([id]) made from inside "
+               "OnSessionAdd acts on this very session (added_session_is_live). A client that never half-closes gets the same messages through as one that "
+               "does: an open stream leaves the reader parked in Read instead of failing (framing_open_stream_same_messages, framing_open_delivers_all_packets). The pre-fix reader (D6) and the pre-fix owner (D15) are kept as definitions with witness theorems. The model is tied "
                "to the Go code on every run: the real ClientSession + pomelo.SessionsImpl + impls.ClientSessions (+ HandlerComponent close callbacks) run over a "
                "scripted PlayerConn with every goroutine parked at harness gates; after every grant status, thread positions, conn.Close count, writes, the "
                "Impl-level and owner-level callback logs, live ids and the goroutine count are compared with the model, and the property predicate runs on the "
@@ -37,13 +51,23 @@ CONFIG = dict(
                "stream (Framing.framesOf) and the predicate demands every complete message sent after the handshake. Simultaneous independent close causes "
                "(K Close() calls + client EOF + write failure on each of hundreds of fresh real sessions) are released together from a spin barrier, and - "
                "deterministically - made to arrive while Close's critical section is occupied (the harness holds the session's own mutex until all of them "
-               "are queued at it): exactly one OnSessionClose and one conn.Close per session, no panic, no goroutine left.",
+               "are queued at it), two pusher goroutines per session pushing beside them: exactly one OnSessionClose and one conn.Close per session, no panic (a racing "
+               "push is accepted or refused), no goroutine left, every Close() call - checked the instant it returns - finds conn.Close and OnSessionClose done exactly once "
+               "(tie of close_returned_means_closed), a push after that is refused. The model's owner computes its remove tokens through Session.removeSession (callback map "
+               "carried across the case, incl. the stale entry a panicking callback leaves). The owner's handler looks the "
+               "announced id up from inside OnSessionAdd and OnSessionRemove on every connection (present at the add, gone at the remove) and, scripted per "
+               "connection, kicks the session or pushes to its id from inside OnSessionAdd (the model's owner runs until its queue is empty: the remove such a kick "
+               "posts is consumed in the same run). One tcp connection in four is a PASSIVE client (no half-close, no close, silent after its stream): the server "
+               "ends it - the reader on a complete malformed header, otherwise an owner-side ClientSessions.Kick posted once the owner has seen every data message - "
+               "goroutines are counted while the client's socket is still open, and the client's further writes must be answered by a reset (the socket is gone).",
     level_note="Partial: release of the goroutines and the conn is proved in the model and observed (runtime.NumGoroutine, Close count) on the implementation, "
                "not proved of the Go runtime; Go select/mutex/channel semantics are assumed; concurrent close causes are explored by the model's interleavings "
                "and by the controller's grant orders (reader holding a frame / parked before a message post / writer parked in Write), and by the race op (real goroutines "
                "serialised through the session's own mutex, or released together), not by controlling the Go scheduler statement by statement inside Close "
-               "(the model's Close has 3 steps: lock / test-and-mark / conn.Close+post+unlock; the code's 5 effects inside the critical section are not "
-               "interleaved individually); TCP framing is a separate byte-level model (Framing) whose messages feed the session model in the tcp engine - body "
+               "(the SESSION model's Close has 3 steps: lock / test-and-mark / conn.Close+post+unlock; the code's 5 effects inside the critical section are "
+               "interleaved individually in the separate CloseFine model, whose theorems cover the close-once / returned-means-closed / racing-push clauses at statement level; "
+               "CloseFine is not a refinement of the session model - the intermediate effects are visible to the reader's status test and the heartbeat - and is tied to "
+               "the code by the race op only, not grant by grant); TCP framing is a separate byte-level model (Framing) whose messages feed the session model in the tcp engine - body "
                "bytes are abstracted to their length, message decoding is C06's; the bubble engine still works on frame/decode-error/read-error items; the "
                "WebSocket acceptor is driven with whole connections (one packet per message, fragmented messages, two packets glued into one message, "
                "garbage messages) and one stalled-writer scenario, its GetNextMessage is Framing.wsNext; the websocket protocol layer itself (gorilla) is "
@@ -61,7 +85,11 @@ CONFIG = dict(
                        "framing_independent_of_segmentation", "framing_delivers_all_packets", "single_read_loses_split_body",
                        "new_id_not_live", "owner_lookup_hits_own_session", "owner_remove_deletes_own_entry", "owner_map_agrees",
                        "id_reuse_hijacks_entry", "unlocked_latch_test_closes_twice", "ws_one_packet_per_message",
-                       "push_after_remove_reaches_nobody"],
+                       "push_after_remove_reaches_nobody", "added_session_is_live",
+                       "framing_open_stream_same_messages", "framing_open_delivers_all_packets",
+                       "close_callbacks_run_once", "close_callback_of_other_session_untouched", "panicking_close_callback_ends_removal",
+                       "close_statement_level_once", "close_returned_means_closed", "close_statement_level_terminates",
+                       "push_racing_close_never_enqueues", "close_without_retest_crashes"],
     harness_pkg="./c05",
     mode="diff",
     reset_prefix="reset",
@@ -74,22 +102,25 @@ CONFIG = dict(
     },
     trivial=r"^(ok|none|bad-op)?$",
     rule="each case: 1-3 simultaneous connections, 4-40 grants chosen from what the harness sees of the real sessions (inputs: handshake / ack / data frames "
-         "with 1-6 packets incl. undecodable messages, heartbeats, kick packets, bad JSON, undecodable frames, empty frames, read errors, EOF; reader grants "
+         "with 1-6 packets incl. undecodable messages, heartbeats, kick packets, bad JSON, undecodable frames, empty frames, read errors, EOF; 1/7 of the connections have a handler that kicks the session / pushes to its id from inside OnSessionAdd; reader grants "
          "run-to-block or step-to-next-message with optional handshake-write failure; writer grants ok/fail; clock advances at and around the 10 s tick and the "
          "20 s expiry; direct and owner-side kicks; owner-side and direct pushes; owner drains; 2 % probably-disabled ops), then `end`; 1/12 of the cases start the "
          "id counter at the 32-bit wrap; 1/25 of the cases may fill a send queue (non-reading client: writer parked in Write, 9999 pushes, heartbeat tick parks in its send) and then run every "
          "step as arm/go so that a process death leaves a replayable witness; 1/6 of the connections have a scripted panicking close callback; "
-         "corpus of the D6/D15 witnesses, scripted coincidences, full-queue and panicking-callback scenarios first; accept bursts (1, 2, 64, random) through the real "
+         "corpus of the D6/D15 witnesses, scripted coincidences, full-queue, panicking-callback and handler-acts-at-add scenarios first; accept bursts (1, 2, 64, random) through the real "
          "pomelo.StartAcceptor over a fake acceptor with a pre-filled connection channel, one P; tcp run: whole connections against the real TCPAcceptor on 127.0.0.1 (valid packet "
          "prefixes incl. one 300 kB message per 10 data packets, then nothing / truncated header / invalid type / short body / oversize announcement, then FIN; "
-         "2 of 3 streams arrive in 2-4 pieces with 4 ms pauses, cut inside a header / between header and body / inside a body / anywhere), final callback logs, "
+         "2 of 3 streams arrive in 2-4 pieces with 4 ms pauses, cut inside a header / between header and body / inside a body / anywhere; 1 connection in 4: a passive client "
+         "(well-formed script, then nothing / a complete malformed header / an incomplete header or body, no FIN) ended by the server's reader or by an owner-side kick, socket probed for release), final callback logs, "
          "every complete message after the handshake delivered, socket closed, goroutines released; a third as many connections with the same scripts through the "
          "real WSAcceptor (one packet per binary message; 1/3 with every message in two fragments; 1/6 with the last two packets glued into one message); two race ops per run (child process): 150-200 x tier scale "
          "sessions with 1-4 Close() calls + EOF + write failure arriving while the session's mutex is held, 300-400 x scale sessions with 2-8 + EOF + write "
-         "failure released together; one evaluation = one grant compared with the model; "
+         "failure released together, 2 pushers per session beside them, every Close() return checked, one push after the close; one evaluation = one grant compared with the model; "
          "non-trivial = every enabled grant; distinct = distinct (op, observation) pairs",
     trusted_base=[
         "Lean 4.33.0 kernel; axioms audited per theorem (propext, Classical.choice, Quot.sound)",
+        "hand-written model lean/Cell2v/Model/CloseFine.lean (Close statement by statement) tied to session.go's Close/Push by the race op only (outcome counts, "
+        "Close-return check), not step by step",
         "hand-written model lean/Cell2v/Model/Session.lean tied to pomelonet/server/session/session.go, node/client/impls/sessions.go, "
         "node/client/impls/pomelo/sessionsimpl.go by grant-by-grant replay (harness/c05 + modeld_c05)",
         "go1.26.8 testing/synctest: quiescence detection and virtual time (ticker, common.NowMs)",
@@ -97,7 +128,8 @@ CONFIG = dict(
         "the scripted PlayerConn of the harness (a closed conn fails reads and writes at once; Close unblocks a pending read/write)",
         "harness canonicalisation: per-connection logs, sorted live ids, goroutine count as a delta to the start of the case",
         "hand-written model lean/Cell2v/Model/Framing.lean tied to pomelonet/server/acceptor/tcp_acceptor.go by the tcp engine (same stream, same cuts); "
-        "loopback TCP delivers what was written before a 4 ms pause before the rest; gorilla/websocket message reassembly (ws engine)",
+        "loopback TCP delivers what was written before a 4 ms pause before the rest; Linux answers data sent to a closed socket with a reset (the `rel` probe "
+        "of the passive-client connections); gorilla/websocket message reassembly (ws engine)",
         "race op: reflect/unsafe access to the one sync.Mutex field of ClientSession and the runtime's waiter count in its state word (falls back to the "
         "spin barrier when the session has no single mutex field)",
     ],
@@ -106,7 +138,7 @@ CONFIG = dict(
         "(it parks; while parked the session cannot expire); fewer than 999 queued owner tasks (sche.Post blocks on a full queue: a Close on the "
         "owner goroutine itself - ClientSessions.Kick - would then block for ever inside OnSessionClose while holding the session mutex; sche.go's own comment "
         "says so)",
-        "close callbacks may panic (the scheduler recovers): a panicking handler callback ends RemoveSession before the sessions' own close callback",
+        "close callbacks may panic (the scheduler recovers; what a panicking handler callback does to RemoveSession is modelled: panicking_close_callback_ends_removal)",
         "fewer than 2^32-2 sessions are accepted during the lifetime of any live session and before its last posted message was consumed (allocator guard of "
         "unique_live_id / new_id_not_live; id_reuse_hijacks_entry shows what happens otherwise)",
         "the client does not pipeline data before the owner processed session-add (otherwise ClientMsg.SessionId is 0; not part of the predicate)",
